@@ -26,6 +26,10 @@ def multi_param_script(rng):
         else:
             regs = rng.sample([0, 1, 2, 3, 10, 12, 100], k)
             terms = ["%s * q%d" % (rng.choice(["2", "0.5", "3"]), n) if rng.random() < 0.7 else "q%d ** 2" % n for n in regs]
+            if rng.random() < 0.4:
+                # the same register under a second spelling (leading zeros) in the same argument
+                n = rng.choice(regs)
+                terms.append(rng.choice(["2 * q0%d", "q00%d ** 2", "q0%d"]) % n)
         e = terms[0]
         for t in terms[1:]:
             e += rng.choice([" + ", " - ", " * "]) + t
